@@ -16,6 +16,12 @@ C['C04'] = ("model_checking",
 C['C07'] = ("model_checking",
  "Verify.tla in keep-going mode: invariant C07_Exact (bag of reported paths = Offending, each once) over all subsets of simultaneous discrepancies in the bounded families (TLC exhibits the historical short-circuit defect when ShortCircuit=TRUE); replayed behaviours and seeded random trees with 0-3 discrepancies run through assert_directory_verifies with recording handlers (policies F/T/N/mixed) and `gemato verify -k`, judged by TLC (Missed/Spurious/Duplicate/Result clauses).",
  "Order of reports not judged; trees whose Manifest chain is itself broken only checked for false acceptance.")
+C['C08'] = ("model_checking",
+ "PathCodec.tla: interval table partitioning 0..0x10FFFF (partition proved by TLC), Enc/Dec over code points with round-trip, separator-freeness, canonical fixed point and UTF-8 storability checked for all strings over every interval edge and the hex-like letters (length <=2 quick, <=3 thorough). The exported table is then compared with the real codec on EVERY code point in four contexts (alone, between hex-like neighbours), random entry lists go through the real writer/parser in memory and through plain/gz/bz2/lzma/xz files, and every accepted text from C09's generators is checked for the canonical fixed point; TLC (TraceCodec.tla) judges all records.",
+ "Encode/decode fidelity is only partly a model-checking question: the spec supplies the case analysis (table, escape forms) and TLC the per-case verdict; exhaustiveness over code points is executed on the real codec. Python's str.split()/isspace() is taken as the line splitter.")
+C['C09'] = ("model_checking",
+ "EntryLine.tla: the line grammar as a decision table (9 tags x up to 3-4 fields x 11 field shapes): TLC checks the transcription of the parser against MustReject/MustAccept and totality (and exhibits the two historical defects when their switches are off); every table case is concretised several times and loaded by the real parser, plus one-character edits of valid lines and every escape form over its full value range (\\x 256, \\u 65536, \\U all values to 0x110000 (stride 7 in quick) and edges up to 0xFFFFFFFF); TLC (TraceEntryLine/TraceCodec) judges each load.",
+ "The classifier of concrete fields (harness) is the abstraction function. Lenient: numeric spellings int() accepts, non-padded timestamps, surrogate escapes, texts containing armor/dash-escaped lines (C04) or exotic line separators.")
 man = {
  "version": 1,
  "setup_cmd": "cd /verif && ./tools/setup.sh",
